@@ -464,7 +464,7 @@ def _age_ok(rows, i, new_age):
     return True
 
 
-def deviations(rows, year, reduced=False, cols=None):
+def deviations(rows, year, reduced=False, cols=None, max_alts=None):
     """Yield (row index, column, value, new rows): one valid single-attribute deviation each."""
     import copy
 
@@ -476,6 +476,8 @@ def deviations(rows, year, reduced=False, cols=None):
             alts = [a for a in alphabet(col, year) if a != r[col]]
             if reduced and len(alts) > 2:
                 alts = [alts[0], alts[len(alts) // 2], alts[-1]] if len(alts) > 3 else alts
+            if max_alts is not None:
+                alts = alts[-max_alts:]
             hh_level = col.endswith("_hh") or col in HH_LEVEL
             if hh_level and any(x["hh_id"] == r["hh_id"] for x in rows[:i]):
                 continue  # once per household
